@@ -70,7 +70,7 @@ class C05(Check):
     PID = 'C05'
     RULE = ('seeded random past-time (and pastified bounded eventually/always) dense-time formulas x signals with 2-7 samples per variable starting at 0; '
             'nested bounded past operators under a binary operator; for one-variable formulas every one of the 2^(n-1) chunkings (n <= 6), otherwise 24 random chunkings with independent cuts per variable; '
-            'per chunking: the concatenated outputs must have non-decreasing stamps and, as a step function, equal Dn (Dense.v) of the (pastified) formula on the '
+            'per chunking: the list every update() returns must equal the one the model of the whole monitor (DenseOnlineMon.mon_run, theorem C05_monitor) returns, and the concatenated outputs must have non-decreasing stamps and, as a step function, equal Dn (Dense.v) of the (pastified) formula on the '
             'region they cover; all chunkings are thereby compared with each other; non-trivial = temporal operator and >= 4 chunkings; '
             'distinct by (formula, signals); plus direct calls of the online intersection(a, b, method) and of update() of the and / or / implies / iff / xor / addition / subtraction '
             'operations on random batch sequences (empty batches, repeated boundary samples with the same or another value, +inf stamps, 15% malformed streams), compared list for list, '
@@ -229,8 +229,17 @@ class C05(Check):
         used = fml.fvars(c['f'])
         tend = max(c['sigs'][i][-1][0] for i in used)
         w = ' '.join(dense.sig_sx(s) for s in c['sigs'])
-        return ['(%s std %s (%s))' % (kind, fml.to_sx(c['f']), w),
-                '(%s std %s (%s) 0 %d)' % ('pastrhoz' if c['past'] else 'rhoz', fml.to_sx(c['f']), w, tend + 8)]
+        lines = ['(%s std %s (%s))' % (kind, fml.to_sx(c['f']), w),
+                 '(%s std %s (%s) 0 %d)' % ('pastrhoz' if c['past'] else 'rhoz', fml.to_sx(c['f']), w, tend + 8)]
+        # the model of the whole online monitor (DenseOnlineMon.mon_run, theorem C05_monitor) on every chunking: one batch per variable and update
+        for ch in c['chunkings']:
+            k = len(ch[str(used[0])])
+            envs = []
+            for j in range(k):
+                env = [c['sigs'][i][ch[str(i)][j][0]:ch[str(i)][j][1]] if (i in used and str(i) in ch) else [] for i in range(len(c['sigs']))]
+                envs.append('(' + ' '.join(dense.sig_sx(b) for b in env) + ')')
+            lines.append('(%s std %s (%s))' % ('pastonlmon' if c['past'] else 'onlmon', fml.to_sx(c['f']), ' '.join(envs)))
+        return lines
 
     def impl_cases(self, c):
         if 'omerge' in c:
@@ -338,15 +347,34 @@ class C05(Check):
         det = {'spec': 'out = ' + dense.dense_formula_text(c['f']), 'pastified': c['past'], 'signals_ticks': c['sigs'], 'tick_s': dense.SCALE,
                'expected': {'source': 'rhoZ (DenseSem.v) of the (pastified) formula, per tick from 0', 'values': [fml.val_sx(spec[t]) for t in sorted(spec)]}}
         covered = 0
-        for ch, i in zip(c['chunkings'], ires):
+        for idx, (ch, i) in enumerate(zip(c['chunkings'], ires)):
             d2 = dict(det, chunking=ch)
             if i['setup']['status'] != 'ok':
                 return 'violation', dict(d2, observed=i['setup'])
+            ml = mlines[2 + idx] if len(mlines) > 2 + idx else ''
             outs = []
             for r in i['calls']:
                 if r['status'] != 'ok':
+                    if ml == 'ONLMON BAD':
+                        break              # the model of the monitor raises too
                     return 'violation', dict(d2, observed=r)
                 outs.append(r['value'])
+            else:
+                if ml.startswith('ONLMON'):
+                    # list for list, update by update
+                    if ml == 'ONLMON BAD':
+                        return 'violation', dict(d2, kind='list', expected={'source': 'DenseOnlineMon.mon_run: an exception'}, observed={'batches_ticks': [dense.from_impl(o) for o in outs]})
+                    exp = [[[(x.rsplit(':', 1)[0] if x.rsplit(':', 1)[0] == 'inf' else int(x.rsplit(':', 1)[0])), fml.parse_val(x.rsplit(':', 1)[1])] for x in part.split()]
+                           for part in ml[len('ONLMON'):].split(';')] if i['calls'] else []
+                    got = [[[('inf' if t == math.inf else t), v] for t, v in dense.from_impl(o)] for o in outs]
+                    same = len(exp) == len(got) and all(len(a) == len(b) and all((x[0] == y[0] or (x[0] != 'inf' and y[0] != 'inf' and float(x[0]) == float(y[0]))) and float(x[1]) == float(y[1])
+                                                                          for x, y in zip(a, b)) for a, b in zip(exp, got))
+                    if not same:
+                        return 'violation', dict(d2, kind='list', expected={'source': 'DenseOnlineMon.mon_run: the lists the update() calls return (ticks)', 'batches_ticks': [[[a_, fml.val_sx(b_)] for a_, b_ in l] for l in exp]},
+                                                 observed={'batches_ticks': got})
+                    self.mon_lists = getattr(self, 'mon_lists', 0) + 1
+            if len(outs) < len(i['calls']):
+                continue
             cat = [s for o in outs for s in dense.from_impl(o)]
             d2['observed_batches'] = outs
             ts = [t for t, _ in cat]
@@ -378,13 +406,18 @@ class C05(Check):
         # a constant operand of a bounded operator is a signal that starts at 0: with any late variable the window looks before the common start
         late_any = any(c['sigs'][i][0][0] != 0 for i in fml.fvars(c['f']) if i < len(c['sigs']))
         under_timed_const = bool(fml.ops(c['f']) & (fml.TUN | fml.TBIN)) and late_any
-        if late_timed or under_timed_const:
+        if isinstance(detail, dict) and detail.get('kind') == 'list':
+            sig['shape'] = 'online_monitor_differs_from_model'        # never a listed finding
+        elif late_timed or under_timed_const:
             sig['shape'] = 'late_start_bounded'
         elif fml.ops(c['f']) & {'oncet', 'histt', 'sincet', 'evt', 'alwt'}:
             sig['shape'] = 'bounded_window'
         else:
             sig['shape'] = 'fold'
         return sig
+
+    def extra_evidence(self):
+        return {'update_lists_compared_with_the_monitor_model': getattr(self, 'mon_lists', 0), 'direct_operation_runs_compared': getattr(self, 'direct', 0)}
 
     def features(self, c):
         if 'omerge' in c:
